@@ -20,7 +20,9 @@ Firsts  == {"init", "getjob", "callback", "getjob+callback"}
 Cmds    == {1, 10, 11, 12, 15, 20, 21, 22, 24, 26, 27, 40, 89, 90, 91, 92, 93, 94, 99, 100, 2100, 2500, 2510, 2520, 2530, 2540, 2550, 2560, 2570, 4112, 4113, 8193, 8195, 7777}
 Subs    == 0..21 \cup {30, 101, 102, 150, 151, 152, 153, 154, 155}
 Shapes  == {"none", "subonly", "stray", "ints2", "ints6", "bytes0", "bytes_odd", "bytes_even", "int_bytes_odd", "hugelen", "mix", "bools_bytes", "random", "int64s", "nested_reg_bad", "nested_reg_ok",
-             "list_emptyroot", "list_entries", "empties"}      \* well-formed listing replies with empty names / empty strings everywhere
+             "list_emptyroot", "list_entries", "empties",
+             "list_sizes", "open_sizes"}      \* 64-bit size fields at the boundaries of the signed range (2^63, 2^63 - 1, 2^63 + 1, 2^64 - 1): a listing's totals and entries, a download's announced size
+           \*      \* well-formed listing replies with empty names / empty strings everywhere
 Keys    == {"right", "wrong"}
 Depths  == 0..2
 
